@@ -492,6 +492,23 @@ func (w *c07Worker) kill() {
 // c07PanicLine extracts the panic message of a dead child from its stderr
 func c07PanicLine(stderr string) string {
 	lines := strings.Split(stderr, "\n")
+	// logger.Panic: the runtime prints only the address of the log entry; the message is the log line before it
+	for i := len(lines) - 1; i >= 0; i-- {
+		if strings.HasPrefix(lines[i], "panic: (*logrus.Entry)") {
+			for j := i - 1; j >= 0 && j > i-20; j-- {
+				if strings.Contains(lines[j], "level=panic") {
+					l := lines[j]
+					if k := strings.Index(l, "msg="); k >= 0 {
+						l = l[k:]
+					}
+					if len(l) > 300 {
+						l = l[:300]
+					}
+					return "panic: logger.Panic " + l
+				}
+			}
+		}
+	}
 	for i := len(lines) - 1; i >= 0; i-- {
 		l := lines[i]
 		if strings.HasPrefix(l, "panic: ") || strings.HasPrefix(l, "fatal error: ") || strings.Contains(l, "level=panic") || strings.Contains(l, "level=fatal") {
@@ -575,6 +592,8 @@ func c07PanicSig(msg string) string {
 		return "c07:panic:index"
 	case strings.Contains(msg, "missing Location"):
 		return "c07:panic:time-location"
+	case strings.Contains(msg, "negative reference count"):
+		return "c07:panic:refcount"
 	case strings.Contains(msg, "nil pointer") || strings.Contains(msg, "SIGSEGV"):
 		return "c07:panic:nil"
 	}
